@@ -37,6 +37,7 @@ EFFECTS = {
     "f*f2": [["f"], ["f2"], ["f", "f2"]],
     "f + f:x": [["f"], ["f", "x"]],
     "x + f:x": [["x"], ["f", "x"]],
+    "f + x + 1": [["f"], ["x"]],
 }
 GROUPINGS = {
     "g": [["g"]],
@@ -81,7 +82,7 @@ def units(tier, seed):
         block = []
         for e in EFFECTS:
             for zero in (False, True):
-                if e == "1" and zero:
+                if (e == "1" and zero) or e == "f + x + 1":
                     continue
                 for g in GROUPINGS:
                     if g == "h":
@@ -97,6 +98,12 @@ def units(tier, seed):
             [["x", False, "g"], ["f", False, "h"]],
             [["f", True, "g:h"], ["1", False, "g"]],
             [["x", True, "g"], ["1", False, "g"]],
+            [["1", False, "g:h"], ["x", True, "h:g"]],
+            [["x", False, "g:h"], ["f", True, "h:g"]],
+            [["f", True, "h:g"], ["1", False, "g:h"]],
+            [["f", True, "g"], ["1", False, "g"]],
+            [["f", True, "g"], ["x", False, "g"]],
+            [["f + x + 1", False, "g"]],
         ]
         u.append([{"lv": list(lv), "holes": holes, "terms": p} for p in pairs])
     return u
@@ -222,15 +229,15 @@ def check_case(case, acc):
                     problems.append(("block", "effect-values", f"{name}: effect column {j} ({lab!r}) does not hold that value"))
             # effect labels must belong to this effect term
             want = {"1"} if ef is None else None
-        byfac.setdefault(":".join(fac), []).append((name, ef, Z, J))
+        byfac.setdefault(":".join(sorted(fac)), []).append((name, ef, Z, J, fac))
     # coding clause per grouping factor
     for fac, lst in byfac.items():
         if case.get("holes"):
             break
         J = lst[0][3]
-        Zg = np.column_stack([z for _, _, z, _ in lst])
+        Zg = np.column_stack([z for _, _, z, _, _ in lst])
         blocks = []
-        for _, ef, _, _ in lst:
+        for _, ef, _, _, _ in lst:
             if ef is None:
                 blocks.append(np.ones((len(df), 1)))
             else:
